@@ -4,6 +4,7 @@ import (
 	"bytes"
 	"encoding/json"
 	"fmt"
+	rhp2 "go.sia.tech/core/rhp/v2"
 	"math/big"
 	"sort"
 	"strconv"
@@ -372,19 +373,19 @@ func (s *Sim) revertDiffs(ru consensus.RevertUpdate, height uint64) {
 
 // BlockCtx carries what is known while the transactions of one block are being built.
 type BlockCtx struct {
-	s      *Sim
-	height int
-	n      int                                        // index of the next transaction
-	ephSC  map[types.SiacoinOutputID]types.SiacoinElement // outputs created earlier in this block
-	ephSF  map[types.SiafundOutputID]types.SiafundElement
-	curFC  map[types.FileContractID]types.FileContract   // v1 contracts as they stand within this block
-	curV2  map[types.FileContractID]types.V2FileContract // v2 revisions within this block
-	V1     []types.Transaction
-	V2     []types.V2Transaction
-	newFC  map[types.FileContractID]bool
-	reg    map[SID][32]byte // ids derived while building; committed to the Sim only when the block is applied
-	poolBefore types.Currency // siafund pool before the transaction being added
-	pool   types.Currency   // siafund pool as of the next transaction (an honest builder's claim start for ephemeral siafund parents)
+	s          *Sim
+	height     int
+	n          int                                            // index of the next transaction
+	ephSC      map[types.SiacoinOutputID]types.SiacoinElement // outputs created earlier in this block
+	ephSF      map[types.SiafundOutputID]types.SiafundElement
+	curFC      map[types.FileContractID]types.FileContract   // v1 contracts as they stand within this block
+	curV2      map[types.FileContractID]types.V2FileContract // v2 revisions within this block
+	V1         []types.Transaction
+	V2         []types.V2Transaction
+	newFC      map[types.FileContractID]bool
+	reg        map[SID][32]byte // ids derived while building; committed to the Sim only when the block is applied
+	poolBefore types.Currency   // siafund pool before the transaction being added
+	pool       types.Currency   // siafund pool as of the next transaction (an honest builder's claim start for ephemeral siafund parents)
 }
 
 // NewBlockCtx starts a block on the current tip.
@@ -408,6 +409,19 @@ func (s *Sim) outs(os []AbsOut) []types.SiacoinOutput {
 		r = append(r, types.SiacoinOutput{Value: cur(o.Val), Address: s.K.Addr(o.Addr)})
 	}
 	return r
+}
+
+// RHP2Proof builds the storage proof of 64-byte leaf idx of a file of whole sectors with rhp/v2's host-side prover.
+func RHP2Proof(data []byte, idx uint64) []types.Hash256 {
+	ns := uint64(len(data)) / rhp2.SectorSize
+	roots := make([]types.Hash256, ns)
+	for j := range roots {
+		roots[j] = rhp2.SectorRoot((*[rhp2.SectorSize]byte)(data[uint64(j)*rhp2.SectorSize:]))
+	}
+	si, li := idx/rhp2.LeavesPerSector, idx%rhp2.LeavesPerSector
+	// (each part is reordered with its own index, the way hosts do it)
+	p := rhp2.ConvertProofOrdering(rhp2.BuildProof((*[rhp2.SectorSize]byte)(data[si*rhp2.SectorSize:]), li, li+1, nil), li)
+	return append(p, rhp2.ConvertProofOrdering(rhp2.BuildSectorRangeProof(roots, si, si+1), si)...)
 }
 
 // inflate realises AbsTx.Big: the first two siafund (siacoin) outputs become 2^63 SF (2^127 H) larger than stated (a
@@ -484,6 +498,12 @@ func (s *Sim) proof(size uint64, idx uint64, pf string) (leaf [64]byte, proof []
 	}
 	copy(leaf[:], segs[i])
 	proof = PlainProof(hs, i, pair)
+	if pf == "rhp2" {
+		// the proof as a host builds it with core's own prover: the path inside the 4 MiB sector, then the range proof over
+		// the sector roots, reordered for consensus (whole sectors only)
+		proof = RHP2Proof(FileData(size), idx)
+		return
+	}
 	switch {
 	case pf == "wrongdata" || pf == "data" || (pf == "wrongleaf" && len(segs) == 1):
 		leaf[0] ^= 0x80
@@ -500,7 +520,9 @@ func (s *Sim) proof(size uint64, idx uint64, pf string) (leaf [64]byte, proof []
 }
 
 // ProofFor exposes proof construction to checks that drive the chain directly.
-func (s *Sim) ProofFor(size, idx uint64, pf string) ([64]byte, []types.Hash256) { return s.proof(size, idx, pf) }
+func (s *Sim) ProofFor(size, idx uint64, pf string) ([64]byte, []types.Hash256) {
+	return s.proof(size, idx, pf)
+}
 
 // lookup helpers: the element as a block builder holding an up-to-date store sees it
 func (b *BlockCtx) sce(id types.SiacoinOutputID) (types.SiacoinElement, bool) {
